@@ -184,7 +184,11 @@ func (g *histGen) genCopyStmt() (*StmtProg, []pgwire.FMsg) {
 		seq = append(seq, pgwire.FMsg{K: "c"})
 	}
 	// handler read plan
-	switch r.Intn(5) {
+	switch r.Intn(7) {
+	case 5: // read to the end, swallow whatever ended the stream, complete anyway
+		sp.Ops = append(sp.Ops, Op{K: "copyall"}, Op{K: "complete", Tag: "COPY 0"})
+	case 6: // read to the end, ignore the outcome, read once more, then report
+		sp.Ops = append(sp.Ops, Op{K: "copyall"}, Op{K: "copyread", N: r.Range(1, 2)}, Op{K: "retlast"})
 	case 0: // stop after k reads and complete
 		sp.Ops = append(sp.Ops, Op{K: "copyread", N: r.Range(0, 2)}, Op{K: "complete", Tag: "COPY 0"})
 	case 1: // fail after k reads
